@@ -10,6 +10,7 @@ from ..lin import Lin
 from ..loader import AnalysisError, Repo, body_nodoc, dotted, norm, walk_no_nested, enclosing, strip_cast
 from ..pdu_model import PduModel
 from ..reactor_model import ReactorModel
+from ..lints import no_swallow
 from ..report import Report, VERIF
 from .c01 import code_layout, expected_len
 from .c05 import check_survival
@@ -37,6 +38,8 @@ def run(repo: Repo, rep: Report, tier: str) -> None:
     rep.rule("escape", "no unhandled explicit raise on peer data reachable from an action (pre-validated under the Evt19 guard); DIMSE decoding guarded")
     rep.rule("termination", "decoder cursor loops advance by a positive amount on every path through the body")
     rep.rule("re-encode", "length properties cover exactly what the encoder emits for any number of decoded elements")
+    rep.rule("no-swallow", "no except clause in the PDU codec swallows a failed item conversion (an invalid item fails the PDU -> Evt19 -> A-ABORT)")
+    rep.floor("codec except clauses", no_swallow(repo, rep, "no-swallow"), 3)
     rm = ReactorModel(repo)
     dul = rm.dul
     rd = repo.func("dul", "DULServiceProvider._read_pdu_data")
